@@ -214,6 +214,11 @@ pub fn check(c: &Case) -> Verdict {
 pub struct HStep {
     /// rewrite this window of the target's memory before the read: (start, len, xor byte)
     pub poke: Option<(u32, u16, u8)>,
+    /// what the rewritten window holds: 0 = old content xor the byte, 1 = all 0xFF (a word that reads as
+    /// -1, the error value of the peek interface), 2 = all zero, 3 = little-endian words equal to small
+    /// negative numbers (-1..-4095: the range of error returns)
+    #[serde(default)]
+    pub fill: u8,
     pub start: u32,
     pub len: u32,
     pub to_vec: bool,
@@ -255,7 +260,12 @@ pub fn check_history(c: &HCase) -> Verdict {
                 let ps = if st.near_previous { prev.saturating_sub(64) } else { ps as u64 % ARENA_SIZE };
                 let pl = (1 + pl as u64 % 4096).min(ARENA_SIZE - ps);
                 let x = x | 1;
-                let cur: Vec<u8> = a.bytes()[ps as usize..(ps + pl) as usize].iter().map(|b| b ^ x).collect();
+                let cur: Vec<u8> = match st.fill % 4 {
+                    1 => vec![0xFF; pl as usize],
+                    2 => vec![0; pl as usize],
+                    3 => (0..pl).map(|i| ((-(1 + ((ps + i) / 8 * 977 + x as u64) as i64 % 4095)) as u64).to_le_bytes()[((ps + i) % 8) as usize]).collect(),
+                    _ => a.bytes()[ps as usize..(ps + pl) as usize].iter().map(|b| b ^ x).collect(),
+                };
                 a.write(ps, &cur);
                 poked = true;
             }
@@ -329,13 +339,13 @@ pub fn run(ctx: &mut LaneCtx) {
         SubSpec {
             name: "reader-history",
             cases: (12_000, 600_000),
-            rule: "ONE reader (each strategy, auto-probe) used for 1..6 reads of fully readable ranges (lengths 1..64 KiB, anywhere or within 8 KiB of the previous read) while the harness rewrites windows of the target's memory between the reads (also exactly where the previous read was); oracle = every read returns the bytes the target holds at that moment; non-trivial = memory rewritten before a later read; distinct = hash of case",
+            rule: "ONE reader (each strategy, auto-probe) used for 1..6 reads of fully readable ranges (lengths 1..64 KiB, anywhere or within 8 KiB of the previous read) while the harness rewrites windows of the target's memory between the reads (also exactly where the previous read was; new content = old xor a byte, all 0xFF, all zero, or words equal to small negative numbers); oracle = every read returns the bytes the target holds at that moment; non-trivial = memory rewritten before a later read; distinct = hash of case",
             strategy: (
                 prop_oneof![Just(Style::VirtualMem), Just(Style::File), Just(Style::Ptrace), Just(Style::Auto)],
                 any::<bool>(),
                 proptest::collection::vec(
-                    (proptest::option::weighted(0.6, (any::<u32>(), any::<u16>(), any::<u8>())), any::<u32>(), prop_oneof![0u32..64, 0u32..5000, any::<u32>()], any::<bool>(), proptest::bool::weighted(0.6))
-                        .prop_map(|(poke, start, len, to_vec, near_previous)| HStep { poke, start, len, to_vec, near_previous }),
+                    (proptest::option::weighted(0.6, (any::<u32>(), any::<u16>(), any::<u8>())), any::<u32>(), prop_oneof![0u32..64, 0u32..5000, any::<u32>()], any::<bool>(), proptest::bool::weighted(0.6), prop_oneof![3 => Just(0u8), 1 => 1u8..4])
+                        .prop_map(|(poke, start, len, to_vec, near_previous, fill)| HStep { poke, start, len, to_vec, near_previous, fill }),
                     1..7,
                 ),
             )
